@@ -20,7 +20,7 @@ func initBinHashSetLiteralNode() {
 			}).ToSlice()
 
 			var argCapacity ast.ExpressionNode
-			if args[2].IsUndefined() {
+			if !args[2].IsUndefined() && !args[2].IsNil() {
 				argCapacity = args[2].MustReference().(ast.ExpressionNode)
 			}
 
